@@ -386,6 +386,37 @@ func runC10(c *Ctx) {
 		calls = append(calls, Event{"op": "MatchTx", "desc": desc[:n], "salt": salt})
 		c.Run(calls)
 	}
+	// output match -> outpoint update -> the spender matches only through that outpoint
+	for k := 0; k < c.Pick(150, 1500); k++ {
+		kind := outKinds[k%len(outKinds)]
+		nout := 1 + r.Intn(3)
+		j := r.Intn(nout)
+		var outs []interface{}
+		for o := 0; o < nout; o++ {
+			kd := outKinds[r.Intn(len(outKinds))]
+			it := 1 + r.Intn(2)
+			if o == j {
+				kd, it = kind, 0
+			}
+			outs = append(outs, map[string]interface{}{"kind": kd, "item": it, "item2": 2})
+		}
+		desc := []interface{}{
+			map[string]interface{}{"outs": outs, "ins": []interface{}{map[string]interface{}{"parent": -1, "out": 0, "sig": -1, "ext": k % 200}}},
+			map[string]interface{}{"outs": []interface{}{map[string]interface{}{"kind": "push", "item": 2, "item2": 2}},
+				"ins": []interface{}{map[string]interface{}{"parent": 0, "out": j, "sig": -1, "ext": 0}}},
+			map[string]interface{}{"outs": []interface{}{map[string]interface{}{"kind": "push", "item": 2, "item2": 2}},
+				"ins": []interface{}{map[string]interface{}{"parent": 0, "out": (j + 1) % 3, "sig": -1, "ext": 0}}},
+		}
+		salt := int(r.Int31n(60000))
+		nb := []int{64, 512, 4096}[k%3]
+		calls := []Event{loadCall(c, "LoadFilter", nb, 1+k%4, randTweak(c, k), (k/3)%3, true),
+			{"op": "Add", "item": ints(scriptItem(kind, poolItem(0)))},
+			{"op": "MatchTx", "desc": desc[:1], "salt": salt}, // the output matches; the filter may learn the outpoint
+			{"op": "MatchTx", "desc": desc[:2], "salt": salt}, // spends exactly that output
+			{"op": "MatchTx", "desc": desc[:3], "salt": salt}, // spends a neighbouring output
+			{"op": "MatchTx", "desc": desc[:1], "salt": salt}}
+		c.Run(calls)
+	}
 	// block scans: random spend DAGs in topological, reverse and random order
 	c.Batch = 10
 	for k := 0; k < c.Pick(260, 2500); k++ {
